@@ -37,6 +37,8 @@ struct Opts {
     alt_repo: Option<String>,
     ver_bin: Option<PathBuf>,
     ver_repo: Option<String>,
+    ren_bin: Option<PathBuf>,
+    ren_repo: Option<String>,
 }
 
 fn parse_opts() -> Opts {
@@ -57,6 +59,8 @@ fn parse_opts() -> Opts {
         alt_repo: std::env::var("VERIF_ALT_REPO").ok().filter(|s| !s.is_empty()),
         ver_bin: std::env::var("VERIF_VER_BIN").ok().filter(|s| !s.is_empty()).map(PathBuf::from),
         ver_repo: std::env::var("VERIF_VER_REPO").ok().filter(|s| !s.is_empty()),
+        ren_bin: std::env::var("VERIF_REN_BIN").ok().filter(|s| !s.is_empty()).map(PathBuf::from),
+        ren_repo: std::env::var("VERIF_REN_REPO").ok().filter(|s| !s.is_empty()),
     };
     let mut i = 1;
     while i < args.len() {
@@ -205,6 +209,16 @@ fn setup(o: &Opts, scratch: &Path, only_complete_reference: bool) -> Result<Ctx,
             }
         }
     }
+    // short prefixes shared by words of facts from different asset files ("pe": Perdita / Peru): where
+    // they tie, the order in which the assets were indexed decides the answer
+    let ties = shipped::shared_prefixes(&shipped, 3, 60);
+    let mut qprime_ties = 0;
+    for f in ties {
+        if !qprime.contains(&f) {
+            qprime.push(f);
+            qprime_ties += 1;
+        }
+    }
     for f in dirstate::FAKE_PHRASES {
         qprime.push(f.to_string());
     }
@@ -233,6 +247,7 @@ fn setup(o: &Opts, scratch: &Path, only_complete_reference: bool) -> Result<Ctx,
         repo: o.repo.clone(),
         alt: false,
         ver: false,
+        ren: false,
         env: vec![],
         rand: 1,
     };
@@ -277,7 +292,7 @@ fn setup(o: &Opts, scratch: &Path, only_complete_reference: bool) -> Result<Ctx,
             let alauncher = Launcher { bin_dir: bin.clone(), allowed: allowed_cpus(), child_timeout: Duration::from_secs(180) };
             let agold = Paths::new(scratch.join("alt-gold").join("xdg"));
             dirstate::wipe(&agold).unwrap_or_else(|e| harness_fail(&e.to_string()));
-            let asession = Session { cpus: 1, faults: vec![], ops: vec![Op::Open { slot: 0, mode: Mode::Disk, plan: Plan::default() }], expected_docs: ashipped.docs(), repo: repo.clone(), alt: true, ver: false, env: vec![], rand: 1 };
+            let asession = Session { cpus: 1, faults: vec![], ops: vec![Op::Open { slot: 0, mode: Mode::Disk, plan: Plan::default() }], expected_docs: ashipped.docs(), repo: repo.clone(), alt: true, ver: false, ren: false, env: vec![], rand: 1 };
             let aout = alauncher.simnode(&agold, &scratch.join("alt-gold"), "gold", &asession, 0);
             let ainfo = dirstate::inspect(&agold, &ashipped);
             let (av, ah) = match &ainfo.meta {
@@ -309,7 +324,7 @@ fn setup(o: &Opts, scratch: &Path, only_complete_reference: bool) -> Result<Ctx,
             let alauncher = Launcher { bin_dir: bin.clone(), allowed: allowed_cpus(), child_timeout: Duration::from_secs(180) };
             let agold = Paths::new(scratch.join("ver-gold").join("xdg"));
             dirstate::wipe(&agold).unwrap_or_else(|e| harness_fail(&e.to_string()));
-            let asession = Session { cpus: 1, faults: vec![], ops: vec![Op::Open { slot: 0, mode: Mode::Disk, plan: Plan::default() }], expected_docs: ashipped.docs(), repo: repo.clone(), alt: false, ver: true, env: vec![], rand: 1 };
+            let asession = Session { cpus: 1, faults: vec![], ops: vec![Op::Open { slot: 0, mode: Mode::Disk, plan: Plan::default() }], expected_docs: ashipped.docs(), repo: repo.clone(), alt: false, ver: true, ren: false, env: vec![], rand: 1 };
             let aout = alauncher.simnode(&agold, &scratch.join("ver-gold"), "gold", &asession, 0);
             let ainfo = dirstate::inspect(&agold, &ashipped);
             let (av, ah) = match &ainfo.meta {
@@ -334,8 +349,42 @@ fn setup(o: &Opts, scratch: &Path, only_complete_reference: bool) -> Result<Ctx,
             }
         }
     }
+    let mut ren = None;
+    if let (Some(bin), Some(repo)) = (&o.ren_bin, &o.ren_repo) {
+        if bin.join("simnode").is_file() {
+            let ashipped = shipped::load(repo).unwrap_or_else(|e| harness_fail(&format!("renamed-assets data: {e}")));
+            let alauncher = Launcher { bin_dir: bin.clone(), allowed: allowed_cpus(), child_timeout: Duration::from_secs(180) };
+            let agold = Paths::new(scratch.join("ren-gold").join("xdg"));
+            dirstate::wipe(&agold).unwrap_or_else(|e| harness_fail(&e.to_string()));
+            let asession = Session { cpus: 1, faults: vec![], ops: vec![Op::Open { slot: 0, mode: Mode::Disk, plan: Plan::default() }], expected_docs: ashipped.docs(), repo: repo.clone(), alt: false, ver: false, ren: true, env: vec![], rand: 1 };
+            let aout = alauncher.simnode(&agold, &scratch.join("ren-gold"), "gold", &asession, 0);
+            let ainfo = dirstate::inspect(&agold, &ashipped);
+            let (av, ah) = match &ainfo.meta {
+                dirstate::MetaInfo::Parsed { version: Some(v), hash: Some(h) } => (v.clone(), h.clone()),
+                _ => (String::new(), String::new()),
+            };
+            if aout.harness_error().is_none() && aout.exit == (Exit::Code { code: 0 }) {
+                let agold_index = scratch.join("ren-gold-index");
+                dirstate::copy_dir(&agold.index(), &agold_index).unwrap_or_else(|e| harness_fail(&e.to_string()));
+                let areference = Reference {
+                    meta_text: ainfo.meta_text.clone().unwrap_or_default(),
+                    version: av,
+                    hash: ah,
+                    gold_index: agold_index,
+                    foreign_index: reference.foreign_index.clone(),
+                    foreign_schema_index: reference.foreign_schema_index.clone(),
+                    foreign_same_shape_index: reference.foreign_same_shape_index.clone(),
+                };
+                ren = Some(Box::new(Alt { launcher: alauncher, repo: repo.clone(), shipped: ashipped, reference: areference }));
+            } else {
+                println!("simctl: note: the renamed-assets build did not complete a clean start; its histories are skipped");
+            }
+        }
+    }
     Ok(Ctx {
         caps_strace: strace_usable(),
+        ren,
+        qprime_ties,
         alt,
         ver,
         launcher,
@@ -444,8 +493,12 @@ fn absorb(st: &mut Stats, ctx: &Ctx, idx: usize, h: &History, trace: &Trace, vs:
             }
             Step::Damage { .. } => outcome.push(json!({"step": i, "damaged_to": so.dir.class(ctx.side_b(so.build).1)})),
             Step::Disk { free_pages, free_inodes } => outcome.push(json!({"step": i, "disk_free_pages": free_pages, "disk_free_inodes": free_inodes})),
-            Step::Start { session } => {
+            Step::Start { session } | Step::Contended { session, .. } => {
                 st.starts += 1;
+                if matches!(s, Step::Contended { .. }) {
+                    let held = so.child.as_ref().map(|c| c.events.iter().any(|e| matches!(e, Event::Held { held: true, .. }))).unwrap_or(false);
+                    *st.probes.entry(format!("process-starts-beside-another-instance ({})", if held { "writer lock held" } else { "nothing to hold" })).or_default() += 1;
+                }
                 if shim_built() {
                     let r = if session.rand == 0 { anything_sim::history::step_rand(h, i) } else { session.rand };
                     let off = anything_sim::exec::clock_offset_of(r);
@@ -754,6 +807,11 @@ fn histories_for(ctx: &Ctx, o: &Opts, prop: &str, quick: bool) -> Vec<History> {
                 let seed = derive(o.seed, "C14", i as u64);
                 hs.push(gen::c14_random(ctx, &mut Rng::new(seed), seed, quick));
             }
+            // two instances at once: a start beside another running instance that holds the writer lock
+            for i in 0..n(6, 60) {
+                let seed = derive(o.seed, "C14-contended", i as u64);
+                hs.push(gen::c14_contended(ctx, &mut Rng::new(seed), seed, quick));
+            }
             // with a second build of the tool (other embedded data): the data changes under the
             // on-disk index and back
             if ctx.alt.is_some() {
@@ -842,7 +900,7 @@ fn cmd_run(o: &Opts) -> i32 {
                     property: "C15".into(),
                     seed: 0,
                     label: "clean first start".into(),
-                    steps: vec![Step::Start { session: Session { cpus: 1, faults: vec![], ops: vec![Op::Open { slot: 0, mode: Mode::Disk, plan: Plan::default() }], expected_docs: 0, repo: String::new(), alt: false, ver: false, env: vec![], rand: 0 } }],
+                    steps: vec![Step::Start { session: Session { cpus: 1, faults: vec![], ops: vec![Op::Open { slot: 0, mode: Mode::Disk, plan: Plan::default() }], expected_docs: 0, repo: String::new(), alt: false, ver: false, ren: false, env: vec![], rand: 0 } }],
                 };
                 let v = Violation { property: "C15".into(), clause: "C15.clean-start".into(), step: 0, detail: why.clone(), focus: vec![], signature: "C15.clean-start".into() };
                 let path = write_replay(o, &h, &v, json!({"note": "reference start failed; not minimised"}));
@@ -857,7 +915,7 @@ fn cmd_run(o: &Opts) -> i32 {
     println!(
         "simctl: {} shipped constants, {} typeable phrases, {} C14 phrases, reference version={} hash={}",
         ctx.shipped.constants.len(),
-        ctx.qprime.len() - dirstate::FAKE_PHRASES.len(),
+        ctx.qprime.len() - dirstate::FAKE_PHRASES.len() - ctx.qprime_ties,
         ctx.q14.len(),
         ctx.reference.version,
         ctx.reference.hash
@@ -1082,6 +1140,24 @@ fn cmd_run(o: &Opts) -> i32 {
                 .collect();
             collect(&mut st, &mut found, &cells);
         }
+        // phase 4a': two instances at once. From every listed state that holds an index, a start
+        // while another running instance holds the index writer lock; then undisturbed starts.
+        let mut n_contended = 0;
+        {
+            let mut cells = Vec::new();
+            for (i, (tag, stt)) in states.iter().enumerate() {
+                if stt.index == anything_sim::dirstate::IndexSpec::Absent {
+                    continue;
+                }
+                if quick && i % 3 != 0 {
+                    continue;
+                }
+                let seed = derive(o.seed, "C15-contended", i as u64);
+                cells.push(gen::c15_contended(&ctx, tag, stt, if i % 2 == 0 { 600 } else { 1500 }, subset.clone(), seed));
+            }
+            n_contended = cells.len();
+            collect(&mut st, &mut found, &cells);
+        }
         // phase 4b: a real full disk. The data directory lives on a file system of its own whose
         // capacity is swept page by page and inode by inode over everything a rebuild needs.
         let mut n_disk = 0;
@@ -1216,7 +1292,40 @@ fn cmd_run(o: &Opts) -> i32 {
             n_ver = hs.len();
             collect(&mut st, &mut found, &hs);
         }
-        extra = json!({"other_version_histories": n_ver, "other_version": ver_note, "long_life_histories": n_soak, "mixed_fault_kind_histories": n_mixed, "full_disk_histories": n_disk, "full_disk": if mount_ok { "the data directory on a tmpfs of its own whose free pages (0..=44) and free inodes (0..=18) are swept; ENOSPC comes from the kernel" } else { "skipped: this process may not mount a tmpfs" }, "two_build_histories": n_two, "two_build": two_note, "syscall_level_histories": n_sys, "syscall_injector": if strace_ok { "strace -f -e inject=<call>:signal=SIGKILL|error=<errno>:when=K around the simnode child" } else { "skipped: strace not available" },
+        // phase 5c: the same code, version and file contents with the first fact asset renamed so that
+        // it is indexed last: to every phrase that ties across assets this is other data. The two
+        // builds take turns on one directory; each must answer as its own fresh in-memory database.
+        let mut n_ren = 0;
+        let mut ren_note = "skipped: no renamed-assets build was provided (./check C15 thorough builds one)".to_string();
+        if let Some(v) = &ctx.ren {
+            ren_note = format!("renamed-assets build: the same {} constants, assets {:?} (this tree: {:?}), hash {} this tree's", v.shipped.constants.len(), v.shipped.assets.iter().map(|a| a.0.as_str()).collect::<Vec<_>>(), ctx.shipped.assets.iter().map(|a| a.0.as_str()).collect::<Vec<_>>(), if v.reference.hash == ctx.reference.hash { "EQUALS" } else { "differs from" });
+            let mut hs = Vec::new();
+            let sess = |ren: bool, faults: Vec<Fault>, mem_first: bool| {
+                let mut s = gen::c15_session_ordered(&ctx, faults, subset.clone(), mem_first);
+                s.ren = ren;
+                Step::Start { session: s }
+            };
+            let mk = |label: String, steps: Vec<Step>, n: usize| History { property: "C15".into(), seed: derive(o.seed, "C15-ren", n as u64), label, steps };
+            for first in [true, false] {
+                let (a, b) = if first { ("renamed assets", "this build") } else { ("this build", "renamed assets") };
+                hs.push(mk(format!("{a} then {b}"), vec![sess(first, vec![], false), sess(!first, vec![], false), sess(!first, vec![], true)], hs.len()));
+                hs.push(mk(format!("{a}, {b}, {a} again"), vec![sess(first, vec![], false), sess(!first, vec![], false), sess(first, vec![], false), sess(first, vec![], false)], hs.len()));
+                let pts: Vec<(String, usize)> = reached.iter().find(|r| r.iter().any(|(p, _)| p == "rebuild.before_commit")).cloned().unwrap_or_default();
+                for (p, count) in &pts {
+                    for k in gen::k_samples(&ctx, p, *count, false) {
+                        if quick && k > 0 {
+                            continue;
+                        }
+                        let f = Fault::Kill { point: p.clone(), k };
+                        let lab = gen::fault_label(&f);
+                        hs.push(mk(format!("{a}, then {b} with {lab}, then {b}"), vec![sess(first, vec![], false), sess(!first, vec![f.clone()], false), sess(!first, vec![], hs.len() % 2 == 1), sess(!first, vec![], false)], hs.len()));
+                    }
+                }
+            }
+            n_ren = hs.len();
+            collect(&mut st, &mut found, &hs);
+        }
+        extra = json!({"contended_start_histories": n_contended, "renamed_assets_histories": n_ren, "renamed_assets": ren_note, "other_version_histories": n_ver, "other_version": ver_note, "long_life_histories": n_soak, "mixed_fault_kind_histories": n_mixed, "full_disk_histories": n_disk, "full_disk": if mount_ok { "the data directory on a tmpfs of its own whose free pages (0..=44) and free inodes (0..=18) are swept; ENOSPC comes from the kernel" } else { "skipped: this process may not mount a tmpfs" }, "two_build_histories": n_two, "two_build": two_note, "syscall_level_histories": n_sys, "syscall_injector": if strace_ok { "strace -f -e inject=<call>:signal=SIGKILL|error=<errno>:when=K around the simnode child" } else { "skipped: strace not available" },
             "listed_states": states.len(), "undisturbed_state_probes": probes.len(), "state_x_crash_point_cells": n_cells, "seeded_deeper_histories": n_random,
             "exhaustive_over": "every listed state class x every hook point its recovery reaches x kill and fail (all sampled k per multi-hit point); other torn lengths / garbage kinds with a seeded sample of sites"});
     } else {
@@ -1254,6 +1363,8 @@ fn cmd_run(o: &Opts) -> i32 {
             "C19" | "C16" => 200,
             _ => 150,
         };
+        // a hang costs two watchdog periods per execution: it is reported as found, not minimised
+        let budget = if f.violation.clause.ends_with(".hangs") { 0 } else { budget };
         let sh = shrink(&ctx, &f.history, &f.violation, budget, &ctx.scratch.join("shrink"), 0);
         let path = write_replay(
             o,
@@ -1430,6 +1541,11 @@ fn cmd_replay(o: &Opts) -> i32 {
             Step::Start { session } => format!(
                 "start [{}] -> {:?}{}",
                 session.faults.iter().map(gen::fault_label).collect::<Vec<_>>().join("+"),
+                so.child.as_ref().map(|c| c.exit.clone()),
+                so.child.as_ref().and_then(|c| c.fault_fired()).map(|f| format!(" fired {}@{}#{}", f.0, f.1, f.2)).unwrap_or_default()
+            ),
+            Step::Contended { hold_ms, .. } => format!(
+                "start while another instance holds the index writer lock for {hold_ms} ms -> {:?}{}",
                 so.child.as_ref().map(|c| c.exit.clone()),
                 so.child.as_ref().and_then(|c| c.fault_fired()).map(|f| format!(" fired {}@{}#{}", f.0, f.1, f.2)).unwrap_or_default()
             ),
